@@ -468,13 +468,15 @@ func (r *rwRT) ruleComments() {
 		}
 		for i := 0; i < st.NumFields(); i++ {
 			f := st.Field(i)
-			if (f.Name() == "Doc" || f.Name() == "Comment") && strings.HasSuffix(f.Type().String(), "ast.CommentGroup") {
+			// only doc positions can carry directives (//go:embed, //go:noinline, //go:linkname, the cgo preamble):
+			// line comments and the comments of struct fields / parameters have no effect on behaviour
+			if f.Name() == "Doc" && name != "Field" && strings.HasSuffix(f.Type().String(), "ast.CommentGroup") {
 				docFields = append(docFields, docField{name, f.Name()})
 			}
 		}
 	}
-	if len(docFields) < 10 {
-		undecided("only %d Doc/Comment fields found in go/ast", len(docFields))
+	if len(docFields) < 6 {
+		undecided("only %d Doc fields found in go/ast", len(docFields))
 	}
 	in.OnCall = wrapOnCall(in.OnCall, func(cc *CallCtx) []Answer {
 		if cc.Fn != nil && (cc.Fn.Name() == "Inspect" || cc.Fn.Name() == "Walk") && strings.HasSuffix(fnPkgPath(cc.Fn), "go/ast") && len(cc.Args) == 2 {
@@ -509,7 +511,7 @@ func (r *rwRT) ruleComments() {
 	bad := ""
 	missing := map[string]string{}
 	collectedPaths, sorted := 0, 0
-	orderBad := ""
+	orderBad, pruned := "", ""
 	for _, o := range outs {
 		if o.Panicked || o.St.Truncated {
 			continue
@@ -588,6 +590,30 @@ func (r *rwRT) ruleComments() {
 					}
 				}
 			}
+			// the traversal must not be cut short above the declarations and their specs
+			for _, e := range o.St.Events[:lastStore] {
+				if e.Kind != "call" || e.Fn == nil || (e.Fn.Name() != "Inspect" && e.Fn.Name() != "Walk") || len(e.Args) != 2 {
+					continue
+				}
+				cb, isClo := e.Args[1].(Closure)
+				if !isClo {
+					continue
+				}
+				// (the declarations and their specs are the only directive-carrying nodes: File and GenDecl are on the way)
+				for _, kind := range []string{"File", "GenDecl"} {
+					t := r.astPtr(kind)
+					st2 := o.St.clone()
+					ref := st2.alloc(&Obj{T: t.(*types.Pointer).Elem(), Kind: 's', Fields: map[string]AV{}})
+					for _, co := range in.Apply(st2, cb, []AV{Dyn{T: t, V: ref}}) {
+						if co.Panicked || len(co.Ret) != 1 {
+							continue
+						}
+						if b, known := asBool(co.Ret[0]); !known || !b {
+							pruned = "the traversal that collects the doc comments does not descend below ast." + kind + " (the callback answers " + co.Ret[0].String() + "): the comment groups of the nodes underneath are not collected"
+						}
+					}
+				}
+			}
 			names := map[string]bool{}
 			symNames(o.St, v, names, map[int]bool{})
 			for _, df := range docFields {
@@ -608,6 +634,7 @@ func (r *rwRT) ruleComments() {
 	c.check(bad == "", "RW.COMMENTS", "doc comments survive the installed comment list", pos,
 		fmt.Sprintf("%d paths: the installed list is nil, or the doc comments of the file's nodes were collected into it", checked), bad)
 	if collectedPaths > 0 {
+		c.check(pruned == "", "RW.COMMENTS", "collection descends through every node", pos, "the collecting traversal never prunes a subtree", pruned)
 		if sorted > 0 {
 			// only the comparator of a library sort is judged; a hand-written merge is not (its order is not decided here)
 			c.check(orderBad == "", "RW.COMMENTS", "installed list in source order", pos,
@@ -648,4 +675,49 @@ func ascendingByPos(v AV, recvOf map[string]string) bool {
 		return hasJ(a) && hasI(b)
 	}
 	return false
+}
+
+// ruleNoAPIPkg: a tree in which no file imports the API (or, for the optimiser, in which nothing imports seq)
+// is a type-correct input like any other: both stages must get through it without panicking (the package
+// lookup answers nil there), whether they return early or visit the files and skip each.
+func (r *rwRT) ruleNoAPIPkg() {
+	c := r.c
+	for _, ent := range []struct{ typ, method string }{{"rewriter", "rewriteAllFiles"}, {"optimizer", "optimizeAllFiles"}} {
+		fn := r.w.MethodOpt(pathRw, ent.typ, ent.method)
+		if fn == nil {
+			undecided("method %s.%s not found", ent.typ, ent.method)
+		}
+		c.fn(relName(fn))
+		in := r.interp(rwConfig{root: fn, boundaries: map[string]bool{ent.method: false}})
+		in.OnCall = wrapOnCall(in.OnCall, func(cc *CallCtx) []Answer {
+			if cc.Fn != nil && cc.Fn.Name() == "LookupPackage" {
+				return []Answer{{Ret: []AV{Nil{}}, NoEvent: true}}
+			}
+			return nil
+		})
+		recv := "r"
+		if ent.typ == "optimizer" {
+			recv = "o"
+		}
+		outs := in.Run(nil, fn, []AV{Sym{Name: recv, NN: true}, Sym{Name: "printer", NN: true}}, nil)
+		bad := ""
+		for _, o := range outs {
+			if o.Panicked {
+				bad = "panics when the package lookup answers nil: " + pathSummary(o)
+				continue
+			}
+			for _, e := range o.St.Events {
+				if e.Kind == "call" && e.Fn != nil && e.Fn.Name() == "VisitAllFiles" && len(e.Args) == 2 {
+					for _, o2 := range in.Apply(o.St, e.Args[1], []AV{Sym{Name: "f", NN: true}}) {
+						if o2.Panicked {
+							bad = "the per-file callback panics when the package lookup answered nil (it dereferences the package): " + pathSummary(o2)
+						}
+					}
+				}
+			}
+		}
+		r.account(in)
+		c.check(bad == "" && len(outs) > 0, "RW.ALLFILES", "API package not loaded: "+ent.method, r.w.FnPos(fn),
+			"a tree that does not use the package is passed through without a panic", bad)
+	}
 }
